@@ -101,3 +101,81 @@ Proof. unfold p2p_name_for_user. now intros ->. Qed.
 
 Theorem parse_p2p_bad_prefix s : has_prefix s s_p2p = false -> parse_p2p s = None.
 Proof. unfold parse_p2p. now intros ->. Qed.
+
+
+(* ------------------------------------------------ soundness of ParseP2P on arbitrary names *)
+
+Lemma forall_firstn {A} (P : A -> Prop) n l : Forall P l -> Forall P (firstn n l).
+Proof. intros F. apply Forall_forall. intros x Hx. rewrite Forall_forall in F. apply F. eapply in_firstn'; eauto. Qed.
+
+Lemma forall_skipn {A} (P : A -> Prop) n l : Forall P l -> Forall P (skipn n l).
+Proof.
+  revert l. induction n as [|n IH]; intros l F; [exact F|]. destruct l as [|x l]; [constructor|].
+  inversion_clear F. now apply IH.
+Qed.
+
+Lemma le_bytes_le_uint64_firstn bs : (8 <= length bs)%nat -> Forall lt256 bs ->
+  le_bytes 8 (le_uint64 bs) = firstn 8 bs.
+Proof.
+  intros L F. unfold le_uint64.
+  rewrite <- (firstn_length_le bs L) at 1. apply le_bytes_le_num. now apply forall_firstn.
+Qed.
+
+(* the spellings of a pair: the canonical body, and the 15 bodies that differ
+   from it only in the 4 unused trailing bits of the 22nd character *)
+Definition pair_sextets (x y : N) : list N := b64_sextets (le_bytes 8 x ++ le_bytes 8 y).
+Definition pair_spelling (x y k : N) : list N :=
+  map enc_char (firstn 21 (pair_sextets x y) ++ [nth 21 (pair_sextets x y) 0 + k]).
+
+Theorem parse_p2p_sound s x y : parse_p2p s = Some (x, y) ->
+  x < two64 /\ y < two64 /\ exists k, k < 16 /\ s = s_p2p ++ pair_spelling x y k.
+Proof.
+  unfold parse_p2p. destruct (has_prefix s s_p2p) eqn:P; [|discriminate].
+  pose proof (has_prefix3 _ _ _ _ P) as Es. remember (skipn 3 s) as src eqn:Esrc. clear Esrc P.
+  destruct (Nat.eqb (length src) p2pBase64Unpadded) eqn:L; cbn [negb]; [|discriminate].
+  apply Nat.eqb_eq in L. unfold p2pBase64Unpadded in L.
+  destruct (b64_decode src) as [dec fl] eqn:D. destruct (Nat.ltb (length dec) 16) eqn:C; [discriminate|].
+  apply Nat.ltb_ge in C. intros E.
+  assert (Ex : x = le_uint64 dec) by congruence. assert (Ey : y = le_uint64 (skipn 8 dec)) by congruence.
+  clear E. subst x y.
+  destruct (decode_count_all_valid src 16) as (l & El & Fl & Ed).
+  { rewrite D. exact C. } { lia. }
+  rewrite D in Ed. cbn [fst] in Ed.
+  assert (F : Forall lt256 dec) by (rewrite Ed; apply sx_bytes_lt256).
+  assert (Ll : length l = 22%nat) by (rewrite <- L, El; now rewrite map_length).
+  assert (Ld : length dec = 16%nat).
+  { rewrite Ed. do 23 (destruct l as [|? l]; try discriminate). reflexivity. }
+  split; [apply le_uint64_bound; exact F|]. split; [apply le_uint64_bound; exact (forall_skipn lt256 8 dec F)|].
+  unfold pair_spelling, pair_sextets.
+  rewrite le_bytes_le_uint64_firstn by (try lia; assumption).
+  rewrite (le_bytes_le_uint64_firstn (skipn 8 dec)) by (try (rewrite skipn_length; lia); now apply forall_skipn).
+  rewrite (firstn_all2 (skipn 8 dec)) by (rewrite skipn_length; lia).
+  rewrite firstn_skipn. rewrite Ed, (sextets_sx_bytes l Fl).
+  do 23 (destruct l as [|? l]; try discriminate). clear Ll.
+  cbn [canon firstn nth app].
+  match goal with |- context [?d / 16 * 16] => exists (d mod 16); split; [dlia|];
+     replace (d / 16 * 16 + d mod 16) with d by dlia end.
+  rewrite Es. f_equal. exact El.
+Qed.
+
+Lemma filter_length_lt {A} (f : A -> bool) l : forallb f l = false -> (length (filter f l) < length l)%nat.
+Proof.
+  induction l as [|x l IH]; cbn; [discriminate|].
+  assert (L : (length (filter f l) <= length l)%nat).
+  { clear. induction l as [|y l IH]; cbn; [lia|]. destruct (f y); cbn; lia. }
+  destruct (f x); cbn; intros H; [specialize (IH H)|]; lia.
+Qed.
+
+(* bad prefix, wrong length, or any character outside the alphabet (CR, LF included): rejected *)
+Theorem parse_p2p_rejects s : has_prefix s s_p2p = false \/ length (skipn 3 s) <> 22%nat \/
+  forallb valid_char (skipn 3 s) = false -> parse_p2p s = None.
+Proof.
+  intros H. unfold parse_p2p. destruct (has_prefix s s_p2p); [|reflexivity].
+  destruct (Nat.eqb (length (skipn 3 s)) p2pBase64Unpadded) eqn:L; cbn [negb]; [|reflexivity].
+  apply Nat.eqb_eq in L. unfold p2pBase64Unpadded in L.
+  destruct H as [H|[H|H]]; [discriminate|contradiction|].
+  pose proof (dec_loop_count (skipn 3 s) [] [] ltac:(cbn; lia)) as C. cbn [length] in C.
+  pose proof (filter_length_lt _ _ H) as V. unfold b64_decode.
+  destruct (b64_dec_loop (skipn 3 s) [] []) as [dec fl]. cbn [fst] in C.
+  destruct (Nat.ltb (length dec) 16) eqn:E; [reflexivity|]. apply Nat.ltb_ge in E. lia.
+Qed.
